@@ -709,6 +709,16 @@ def report_stale(ctx, w, decls, sessions, i, call, observed, expected, hinp):
                           observed=alone, expected=not alone, key='spec:%s' % json.dumps([[describe_decl(w, d) for d in d2], repr(u), p, describe(w, t), jsonable_inputs(i2)]))
             reset_rules(w); declare(w, decls)
             return
+    if p == 'to_json':
+        # the same for to_json: a session that is wrong on its own is not a stale-membership history
+        reset_rules(w); declare(w, decls)
+        alone = real_thread(w, [dict(sessions[i], calls=[], exit='commit', tojson=(u, tuple(t['o'])))])[0][1]
+        if (alone != 'PermissionError') != (expected != 'PermissionError'):
+            ctx.violation('to_json on behalf of %r %s %s although the declared rules say the opposite' % (u[1], 'serialises' if alone != 'PermissionError' else 'refuses', describe(w, t)),
+                          {'decls': [describe_decl(w, d) for d in decls], 'inputs': jsonable_inputs(sessions[i]['inputs']), 'user': repr(u), 'object': describe(w, t)},
+                          observed=alone, expected=expected, key='to_json-alone:%s' % json.dumps([[describe_decl(w, d) for d in decls], repr(u), describe(w, t)]))
+            reset_rules(w); declare(w, decls)
+            return
     def one(sn, exit_kind):
         c = [(u, 'view' if p == 'to_json' else p, t)]
         return dict(sn, calls=c, exit=exit_kind, tojson=(u, tuple(t['o'])) if p == 'to_json' else None)
